@@ -109,6 +109,14 @@ def c20c(ctx, tu):
             ok = len(news) == 1 and len(news[0]["args"]) == 2 and FIELD in erase(str(news[0]["args"][1]))
             why = "the coroutine return handler must be given the expectation's own yield list"
             if ok:
+                # shared, not handed over: the expectation keeps its pointer so that later CO_YIELD clauses append
+                # to the list the handler iterates
+                moved = [e for b, e in fn.events() if e["e"] == "call" and qe(e).startswith("std::move") and
+                         FIELD in erase(str(e.get("args")))]
+                ok = not moved and "std::move" not in str(news[0]["args"][1])
+                why = "the yield list must be SHARED with the return handler (copied shared_ptr): moving it out of the " \
+                      "expectation detaches CO_YIELD clauses written after CO_RETURN / CO_THROW"
+            if ok:
                 ok = created_if_absent(fn, FIELD)
                 why = "CO_RETURN / CO_THROW must create the yield list only when it is absent"
             if ok:
